@@ -122,6 +122,7 @@ def child(args):
     if os.environ.get("VERIF_APICOV"):          # API-surface audit (tools/apicov.py): which ahrs functions did this workload enter?
         import sys as _sys
         apicov = set()
+        direct = set()
         root = os.path.realpath(tree())
         # option audit: code object -> {parameter name: default} for every function / method defined under ahrs
         import inspect as _inspect
@@ -160,6 +161,11 @@ def child(args):
                 if fn.startswith(root):
                     key = "%s:%s" % (os.path.relpath(fn, root), code.co_qualname if hasattr(code, "co_qualname") else code.co_name)
                     apicov.add("%s:%d" % (key, code.co_firstlineno))
+                    back = frame.f_back
+                    while back is not None and back.f_code.co_filename.endswith(os.path.join("vt", "probes.py")):       # probe wrappers are transparent
+                        back = back.f_back
+                    if back is not None and not back.f_code.co_filename.startswith(root):
+                        direct.add(key)          # called by the workload itself, not from inside the library
                     d = defaults.get(code)
                     if d:
                         loc = frame.f_locals
@@ -205,6 +211,8 @@ def child(args):
             json.dump(sorted(apicov), f)
         with open(os.path.join(core.VERIF, ".work", "apicov", "opt-%s-%d.json" % (args.prop, args.shard)), "w") as f:
             json.dump(optcov, f)
+        with open(os.path.join(core.VERIF, ".work", "apicov", "direct-%s-%d.json" % (args.prop, args.shard)), "w") as f:
+            json.dump(sorted(direct), f)
     np.save(args.out + ".npy", np.array(stats["digests"], dtype=np.uint64))
     with open(args.out, "w") as f:
         json.dump(core.enc(out), f)
